@@ -242,6 +242,8 @@ func replayOne(rf *vstat.ReplayFile) string {
 		return replayConc(rf)
 	case "large":
 		return replayLarge(rf)
+	case "history":
+		return replayHist(rf)
 	default:
 		return "unknown part " + rf.Part
 	}
